@@ -50,9 +50,10 @@ def queue_situation(it, sit):
 
 
 def work(task):
-    tree, scheme, k, prios = task
+    tree, scheme, k, prios = task[:4]
+    skip = task[4] if len(task) > 4 else None
     spec = flatten(tree, scheme, probes=False)
-    spec, navs = add_scheme_P(spec, prios=prios)
+    spec, navs = add_scheme_P(spec, prios=prios, skip=skip)
     m = Model(spec)
     sc, objs = build_api(spec)
     tid_of = {id(o): i for i, o in enumerate(objs)}
@@ -196,6 +197,11 @@ def run(tier, seed):
         for tree in skeletons(nmin, nmax, history=False, final=False):
             for scheme in ('asc', 'desc'):
                 tasks.append((tree, scheme, k, prios))
+    # sparse variants: every other state (in pre-order) carries no probe, so that inner-first has to look
+    # past intermediate states without any candidate transition
+    for tree in skeletons(3, 5 if tier == 'quick' else 6, history=False, final=False):
+        for skip in (0, 1):
+            tasks.append((tree, 'asc', 2, (0, 1), skip))
     tasks.sort(key=lambda t: -len(repr(t[0])))
     results = harness.pmap(work, tasks, chunksize=1)
     agg = harness.Agg()
@@ -231,9 +237,10 @@ def run(tier, seed):
 
 def replay(data):
     from mc.schemes import _tupled
-    tree, scheme, k, prios = _tupled(data['task'])
+    task = _tupled(data['task'])
+    tree, scheme, k, prios = task[:4]
     spec = flatten(tree, scheme, probes=False)
-    spec, navs = add_scheme_P(spec, prios=prios)
+    spec, navs = add_scheme_P(spec, prios=prios, skip=task[4] if len(task) > 4 else None)
     m = Model(spec)
     sc, objs = build_api(spec)
     it = Interpreter(sc, initial_context=probes.CONTEXT())
